@@ -46,6 +46,7 @@ type histRun struct {
 	msources  map[string]*msJob // C18: the MultiSource of a job lives as long as the hub (like a scheduled job's pipeline)
 	bkDone    chan string       // C20: a backup run that is held open on a pipe (backupStart … backupEnd)
 	bkPipe    *os.File
+	msOwed    map[string]bool // C18: jobs whose last run was interrupted
 	ctxStore  *server.Store // the contextual store of a job with a JavaScript transform
 	ctxOf     *Hub
 }
